@@ -1100,28 +1100,29 @@ func (z *Decimal) SetFloat64(x float64) *Decimal {
 	}
 	// normalized x != 0
 
-	// TODO(db47h): The conversion algorithm is naive. Cmparing string ->
-	// float64 -> Decimal -> string will very likely fail since the Decimal is
-	// not rounded to the shortest possible representation of the input float
-	// when z.prec == 0.
-
-	z.form = finite
+	// x = ±m × 2**exp2 exactly, with m a 53-bit integer. Turn that into a
+	// decimal integer times a power of ten, m×2**exp2 or (m×5**-exp2)×10**exp2,
+	// so that the conversion to z.prec digits is a single, correct rounding
+	// (going through a rounded power of two rounds twice or more: SetFloat64(1)
+	// at precision 1 gave 2 under AwayFromZero).
 	fmant, exp2 := math.Frexp(x) // get normalized mantissa
 	exp2 -= 53
-	z.mant = z.mant.setUint64(1<<52 | (math.Float64bits(fmant) & (1<<52 - 1)))
-	z.exp = int32(len(z.mant))*_DW - int32(dnorm(z.mant))
-	if exp2 != 0 {
-		// multiply / divide by 2**exp with increased precision
-		z.prec++
-		t := new(Decimal).SetPrec(uint(z.prec))
-		if exp2 < 0 {
-			z = z.Quo(z, t.pow2(uint64(-exp2)))
-		} else {
-			z = z.Mul(z, t.pow2(uint64(exp2)))
-		}
-		z.prec--
+	m := new(big.Int).SetUint64(1<<52 | (math.Float64bits(fmant) & (1<<52 - 1)))
+	if exp2 > 0 {
+		m.Lsh(m, uint(exp2))
+	} else if exp2 < 0 {
+		m.Mul(m, new(big.Int).Exp(big.NewInt(5), big.NewInt(int64(-exp2)), nil))
 	}
-	z.round(0)
+	if z.neg {
+		m.Neg(m)
+	}
+	z.SetInt(m)
+	if exp2 < 0 {
+		// exact: the result stays well inside the exponent range
+		acc := z.acc
+		z.SetMantExp(z, exp2)
+		z.acc = acc
+	}
 	return z
 }
 
